@@ -590,7 +590,10 @@ def words_of(body, call_sym, edge_sym=None, stmt_sym=None, start=0, stops=(), ke
                 else:
                     continue
             rv = s["rv"]
-            if rv["k"] == "agg" and rv.get("ak") == "adt" and rv.get("variant") and rv.get("adt") in _VARIANT_ENUMS:
+            if rv["k"] == "agg" and rv.get("ak") == "adt" and rv.get("variant") and (
+                    rv.get("adt") in _VARIANT_ENUMS or
+                    # a workspace enum used as a tag (`enum Verdict { Replace, Reject }` built from a bool, then matched)
+                    (str(rv.get("adt", "")).startswith(("anemo::", "anemo_tower::", "anemo_build::")) and rv["variant"] != str(rv["adt"]).split("::")[-1])):
                 pay = None
                 if len(rv["ops"]) == 1 and isinstance(op_place(rv["ops"][0]), int):
                     pay = op_place(rv["ops"][0])
@@ -1401,6 +1404,10 @@ def check_panic_inventory(ob, prog, entries, allow, stop=(), extra_edges=None, k
                 used.add(s["body"] + "/*")
         else:
             used.add(k)
+        if a is None and static_bounds_ok(s, prog.body(s["body"])):
+            ob.evals += 1
+            ob.matched += 1
+            continue
         if a is None:
             b = prog.body(s["body"])
             ob.fail("refuted", f"{key_prefix}/unlisted/{k}",
@@ -1971,6 +1978,61 @@ def payload_root(t):
     return s
 
 
+def static_bounds_ok(site, b):
+    """A `BoundsCheck { len: const N, index: <local> }` assert whose index is a compile-time constant < N can never fail
+    (e.g. `buf[7] = x` on a `[u8; 8]`): it needs no entry in a panic inventory."""
+    if site.get("what") != "assert:BoundsCheck":
+        return False
+    t = b.blocks[site["bb"]]["t"]
+    m = __import__("re").match(r"BoundsCheck \{ len: const (\d+)_usize, index: (?:copy|move) _(\d+) \}", t.get("msg") or "")
+    if not m:
+        return False
+    ln, loc = int(m.group(1)), int(m.group(2))
+    v = int_of(Origins(b).of_local(loc))
+    return v is not None and 0 <= v < ln
+
+
+def join_error_test(subj, labels):
+    """A test of a tokio JoinError: ("is_panic" | "is_cancelled", truth) for `e.is_panic()` / `e.is_cancelled()` edges and
+    for `match e.try_into_panic() { Ok(payload) => .., Err(e) => .. }` (Ok = it was a panic); else None."""
+    s = strip_identity(subj)
+    if s[0] == "call" and name_matches(s[1], ("JoinError::is_cancelled", "JoinError::is_panic")) and labels in ({"true"}, {"false"}):
+        return (s[1].split("::")[-1], labels == {"true"})
+    if subj[0] == "discr":
+        r = strip_identity(subj[1])
+        if r[0] == "call" and name_matches(r[1], "JoinError::try_into_panic") and labels in ({"Ok"}, {"Err"}):
+            return ("is_panic", labels == {"Ok"})
+    return None
+
+
+def join_error_edges(b, o=None):
+    """[(target block, name, truth)] of every JoinError test edge in body `b`"""
+    o = o or Origins(b)
+    out = []
+    for i, bl in enumerate(b.blocks):
+        if bl.get("cleanup") or bl["t"]["k"] != "switch":
+            continue
+        si = switch_info(b, i, o)
+        if si is None:
+            continue
+        for tgt, ls in si[1].items():
+            jt = join_error_test(si[0], ls)
+            if jt is not None:
+                out.append((tgt, jt[0], jt[1]))
+    return out
+
+
+def is_unit_variant(t, suffix):
+    """term denotes the fieldless enum value `suffix` (e.g. "DisconnectReason::Requested"): written in place, or through
+    a named / associated constant whose evaluated value is that variant"""
+    s = strip_identity(t)
+    if s[0] == "agg":
+        return str(s[2]).endswith(suffix)
+    if s[0] == "named":
+        return str(s[1]).endswith(suffix) or (len(s) > 2 and s[2] is not None and str(s[2]).endswith(suffix))
+    return False
+
+
 def origin_eq_test(subj, labels):
     """`conn.origin() == ConnectionOrigin::Inbound` (or `!=`, either constant, negated): which origin the edge admits -
     "Inbound" / "Outbound" (the type has exactly these two values), else None."""
@@ -1998,7 +2060,7 @@ def deep_payload(t):
     unchanged (after strip_identity)."""
     s = strip_identity(t)
     for _ in range(12):
-        if not (s[0] == "field" and s[2] == "0" and s[1][0] == "variant" and s[1][2] in ("Some", "Ok", "Continue", "Ready")):
+        if not (s[0] == "field" and s[2] == "0" and s[1][0] == "variant"):
             break
         v = s[1][2]
         inner = strip_identity(s[1][1])
@@ -2010,7 +2072,8 @@ def deep_payload(t):
         alts = [a for a in alts if isinstance(a, tuple)]
         hit = [a for a in alts if a[0] == "agg" and any(str(a[2]).endswith("::" + w) for w in want) and len(a[3]) == 1]
         rest = [a for a in alts if a not in hit]
-        if len(hit) == 1 and all(a[0] == "agg" and str(a[2]).split("::")[-1] in ("Err", "None", "Pending") for a in rest):
+        if len(hit) == 1 and all(a[0] == "agg" and a[1] == hit[0][1] and str(a[2]).rsplit("::", 1)[0] == str(hit[0][2]).rsplit("::", 1)[0] for a in rest):
+            # (the other alternatives are other variants of the same enum: Err / None / Pending, or a tag enum's other case)
             s = strip_identity(hit[0][3][0])
             continue
         break
